@@ -20,6 +20,23 @@ PLACEMENTS = ["root", "helper", "kept-function", "data-function"]
 PRODUCERS = ["data-function-before", "keep-before", "after", "earlier-evaluation", "never"]
 
 
+def spell_paths(prog, spelling):
+    """The path "/p" of every keep / load statement is given through a module variable (a str or a pathlib.Path object)
+    instead of a string literal; the functions that mention the variable read it."""
+    if spelling == "literal":
+        return prog
+    prog = copy.deepcopy(prog)
+    m = prog["modules"]["m0"]
+    m["vars"]["PV_P"] = ["str", b"/p".hex()] if spelling == "str-variable" else ["ppath", b"/p".hex()]
+    for f in m["funcs"]:
+        for st in f["stmts"]:
+            if st["k"] in ("keep", "load") and st["path"] == "/p":
+                st["path_var"] = "PV_P"
+                if "PV_P" not in f["reads"]:
+                    f["reads"].append("PV_P")
+    return prog
+
+
 def build(placement, producer, arg_passing=False, n_loads=1):
     """Program with one dds.load("/p") at the given placement and a producer of "/p" of the given kind.
     Returns (prog, events-prefix that populates the store if needed)."""
@@ -67,8 +84,8 @@ def build(placement, producer, arg_passing=False, n_loads=1):
     return prog
 
 
-def scenario(placement, producer, populated, arg_passing, n_loads=1):
-    prog = build(placement, producer, arg_passing, n_loads)
+def scenario(placement, producer, populated, arg_passing, n_loads=1, spelling="literal"):
+    prog = spell_paths(build(placement, producer, arg_passing, n_loads), spelling)
     call = {"a": "call", "mod": "m0", "fn": "root", "style": "eval", "pos": [], "kw": []}
     prod_call = {"a": "call", "mod": "m0", "fn": "prod", "style": "direct", "pos": [], "kw": []}
     ev = [("prog", prog)]
@@ -167,7 +184,7 @@ def run(rep, tier, seed, proof_ok):
     run_raw(rep)
     rep.rule = ("every placement of dds.load {root of the evaluated function, nested helper, function kept with dds.keep, data function} x "
                 "producer of the path {data function earlier in the same evaluation, dds.keep earlier in the same evaluation, later in "
-                "the same evaluation, an earlier evaluation, never; + the producer kept under two paths, the loaded one before / after the reader} x {fresh, populated store} x {loaded value only returned, loaded "
+                "the same evaluation, an earlier evaluation, never; + the producer kept under two paths, the loaded one before / after the reader} x {path as string literal, through a str variable, through a pathlib.Path variable} x {fresh, populated store} x {loaded value only returned, loaded "
                 "value passed to a nested keep} (+ the same path loaded two / three times by one reader); history: evaluate twice, change the producer's tracked variable, (re-produce,) evaluate "
                 "twice; compared with the dds-free reference (value most recently kept in program order), with the Coq model, and "
                 "with the expectation that read-before-produce / never-produced is rejected by a DDS error; exhaustive over this matrix")
@@ -182,6 +199,11 @@ def run(rep, tier, seed, proof_ok):
         jobs.append({"placement": placement, "producer": producer, "populated": False, "arg_passing": n_loads == 3, "n_loads": n_loads,
                      "events": scenario(placement, producer, False, n_loads == 3, n_loads)})
     # one function kept under two paths in one evaluation, the loaded one before / after the reader (fresh and populated store)
+    # the path given through a module variable holding a str / a pathlib.Path object (keep and load accept both)
+    for placement, producer, spelling in itertools.product(PLACEMENTS, ("keep-before", "data-function-before", "after", "earlier-evaluation"), ("str-variable", "path-variable")):
+        for populated in ((False, True) if producer != "earlier-evaluation" else (False,)):
+            jobs.append({"placement": placement, "producer": producer, "populated": populated, "arg_passing": False, "spelling": spelling,
+                         "events": scenario(placement, producer, populated, False, spelling=spelling)})
     # the loaded path comes from an earlier evaluation and the same function is kept under another path in this one (one signature, two paths)
     for placement in PLACEMENTS:
         jobs.append({"placement": placement, "producer": "alias-of-earlier-evaluation", "populated": False, "arg_passing": False,
@@ -202,7 +224,7 @@ def run(rep, tier, seed, proof_ok):
     outcomes = {}
     for job, recs in zip(jobs, results):
         name = f"{job['placement']}/{job['producer']}/{'populated' if job['populated'] else 'fresh'}/{'arg' if job['arg_passing'] else 'ret'}" + \
-            (f"/loads={job['n_loads']}" if job.get("n_loads", 1) > 1 else "") + ("/prefix-of-committed-path" if job.get("prefix_of_committed") else "")
+            (f"/loads={job['n_loads']}" if job.get("n_loads", 1) > 1 else "") + (f"/{job['spelling']}" if job.get("spelling") else "") + ("/prefix-of-committed-path" if job.get("prefix_of_committed") else "")
         rep.case(name)
         if isinstance(recs, dict):
             rep.violation("harness-error:c09", f"{name}: " + recs["error"][-300:], job, no_input=True)
